@@ -226,22 +226,22 @@ var methods = []string{"GET", "GET", "GET", "GET", "POST", "FOO"}
 
 func genCase(t *rapid.T) *Case {
 	c := &Case{}
-	n := rapid.IntRange(1, 10).Draw(t, "nroutes")
-	hostW := rapid.SampledFrom([]int{2, 2, 1000}).Draw(t, "hostweight")
+	n := gen.IntR(t, 1, 10, "nroutes")
+	hostW := gen.Pick(t, []int{2, 2, 1000}, "hostweight")
 	var pool []string
-	multi := rapid.IntRange(0, 3).Draw(t, "multi") == 0
+	multi := gen.IntR(t, 0, 3, "multi") == 0
 	for i := 0; i < n; i++ {
 		p := gen.Pattern(t, pool, hostW, false)
 		pool = append(pool, p)
 		m := "GET"
 		if multi {
-			m = rapid.SampledFrom(methods).Draw(t, "method")
+			m = gen.Pick(t, methods, "method")
 		}
 		c.Routes = append(c.Routes, rt.RouteSpec{Method: m, Pattern: p})
 	}
-	nreq := rapid.IntRange(1, 6).Draw(t, "nreq")
+	nreq := gen.IntR(t, 1, 6, "nreq")
 	for i := 0; i < nreq; i++ {
-		src := rapid.SampledFrom(c.Routes).Draw(t, "src")
+		src := gen.Pick(t, c.Routes, "src")
 		if !ref.ValidPattern(src.Pattern, 1<<16, 1<<16) {
 			continue
 		}
@@ -252,8 +252,8 @@ func genCase(t *rapid.T) *Case {
 			continue
 		}
 		m := src.Method
-		if multi && rapid.IntRange(0, 4).Draw(t, "othermethod") == 0 {
-			m = rapid.SampledFrom(methods).Draw(t, "reqmethod")
+		if multi && gen.IntR(t, 0, 4, "othermethod") == 0 {
+			m = gen.Pick(t, methods, "reqmethod")
 		}
 		c.Reqs = append(c.Reqs, rt.Req{Method: m, Host: host, Path: path})
 	}
@@ -279,11 +279,11 @@ func TestFanOut(t *testing.T) {
 	alphabet := "abcdefghijklmnopqrstuvwxyzABCDEFGHIJKLMNOPQRSTUVWXYZ0123456789-_.~!$&'()+,;=:@"
 	rapid.Check(t, func(t *rapid.T) {
 		c := &Case{}
-		k := rapid.IntRange(45, 70).Draw(t, "fanout")
+		k := gen.IntR(t, 45, 70, "fanout")
 		perm := rapid.Permutation([]byte(alphabet)).Draw(t, "perm")[:k]
-		base := rapid.SampledFrom([]string{"/", "/f/", "/f/a"}).Draw(t, "base")
+		base := gen.Pick(t, []string{"/", "/f/", "/f/a"}, "base")
 		for _, b := range perm {
-			tail := rapid.SampledFrom([]string{"", "x", "/y", "/{p1}"}).Draw(t, "tail")
+			tail := gen.Pick(t, []string{"", "x", "/y", "/{p1}"}, "tail")
 			c.Routes = append(c.Routes, rt.RouteSpec{Method: "GET", Pattern: base + string(b) + tail})
 		}
 		if rapid.Bool().Draw(t, "param") {
@@ -294,7 +294,7 @@ func TestFanOut(t *testing.T) {
 		}
 		c.Routes = rapid.Permutation(c.Routes).Draw(t, "order")
 		for i := 0; i < 8; i++ {
-			src := rapid.SampledFrom(c.Routes).Draw(t, "src")
+			src := gen.Pick(t, c.Routes, "src")
 			_, path := gen.Instantiate(t, src.Pattern)
 			c.Reqs = append(c.Reqs, rt.Req{Method: "GET", Path: gen.MutatePath(t, path)})
 		}
